@@ -238,18 +238,21 @@ CLAIMS = {
     ),
     "C08": dict(
         category="other",
-        technique="sibling cross-check (Iter vs IterMut x10, helper pairs x3), mirror cross-check (next vs next_back under "
-        "right<->left), shape rules for len/size_hint/clone/default/IntoIter, bound-translation arm analysis",
-        text="Static decision that Iter and IterMut (and the slice_take helper pairs) are the same algorithm modulo "
-        "mutability, that next and next_back are mirror images, that len counts both remaining slices and size_hint is "
-        "(len, Some(len)), that next takes from right then left and next_back from left then right, that Iter::clone copies "
+        technique="per-function event-shape rules on resolved MIR for next/next_back/len/size_hint/clone/default/IntoIter "
+        "(both Iter and IterMut), sibling cross-check (Iter vs IterMut constructors, over_range, advance_*_by x5; helper pairs "
+        "x3), bound-translation arm analysis, impl-table rule (no overridden provided iterator method)",
+        text="Static decision, for Iter and IterMut each, that len counts both remaining slices and size_hint is "
+        "(len, Some(len)), that next takes from right and only then from left and next_back from left and only then from "
+        "right, returning what was taken; that Iter::clone copies "
         "both fields in place and default iterators are two empty slices, that IntoIter is exactly pop_front/pop_back/len "
-        "of its only field, and that every RangeBounds form is translated as documented by the single validation function. "
+        "of its only field, that every RangeBounds form is translated as documented by the single validation function, "
+        "and that the Iter/IterMut forms of new/empty/over_range/advance_front_by/advance_back_by (and the slice_take helper "
+        "pairs) are the same algorithm modulo mutability. "
         "No iterator type overrides a provided Iterator method (ITERSET1). "
         "Not decided: the selection arithmetic of advance_front_by/advance_back_by and element order (values).",
-        note="[twin] rules. A bug present identically in both twins (or symmetric in next/next_back) is not visible to "
-        "this check.",
-        ref="DESIGN.md §5 C08",
+        note="[twin] rules for the 8 pairs: a bug present identically in both twins is not visible; a one-sided "
+        "behaviour-preserving re-spelling of a twinned function is reported for review (DESIGN.md §10.9).",
+        ref="DESIGN.md §5 C08, §10.9",
     ),
     "C12": dict(
         category="other",
